@@ -24,7 +24,8 @@ RULE = ("accepted texts of the C01 family with at least one section x "
         "specifiers for one key; plus malformed specifiers (no '=', empty "
         "path component).  Non-trivial = at least one specifier addresses a "
         "section; distinct_nontrivial = distinct (depths, addressing modes, "
-        "fault flags, outcome) signatures.")
+        "fault flags, outcome) signatures."
+        ' Path components include names that are no type names, pieces of occurring names and backslashes; the reused command-line loader first reads refused texts in half of its cases.')
 LEVEL_TEXT = ("Each (text, override list) is loaded with the real loader "
               "with overrides and, independently, as the hand-edited text "
               "the property describes; value trees or the fact of rejection "
